@@ -57,14 +57,16 @@ theorem connect_fires_once (eps : List Endpoint) (h : List Ev) :
 
 /-! ## C09.2  addresses are tried in listed order; the first reachable one is used -/
 
-/-- `tagged` is the address list with, for each address, whether a connection attempt on it succeeds.
+/-- `tagged` is the address list with, for each address, the outcome of a connection attempt on it:
+it connects, or it fails - with ANY kind of failure (`FailKind`: refused, another ConnectError, a DNS
+lookup error, a timeout, anything else); every failing address is an unreachable address.
 Running `connect` against that reactor tries exactly the unreachable addresses that precede the first
 reachable one, in listed order, then that one, and uses it; when none is reachable the Deferred fails
 (ConnectError) and nothing is in use. -/
-theorem first_reachable_in_order (tagged : List (Endpoint × Bool)) :
+theorem first_reachable_in_order (tagged : List (Endpoint × Outcome)) :
     attempts (run .repaired (connect (tagged.map (·.1))) (tagged.map (fun t => walkEv t.2))) =
-      (tagged.takeWhile (fun t => !t.2)).map (·.1) ++ ((tagged.find? (·.2)).map (·.1)).toList ∧
-    (match tagged.find? (·.2) with
+      (tagged.takeWhile (fun t => !t.2.ok)).map (·.1) ++ ((tagged.find? (·.2.ok)).map (·.1)).toList ∧
+    (match tagged.find? (·.2.ok) with
      | some t =>
        (run .repaired (connect (tagged.map (·.1))) (tagged.map (fun t => walkEv t.2))).phase = .authenticating ∧
        (run .repaired (connect (tagged.map (·.1))) (tagged.map (fun t => walkEv t.2))).current = some t.1 ∧
@@ -173,7 +175,7 @@ def exUnix : Endpoint := { target := .unix ['/', 'b'], args := [] }
 /-- A ready connection with two calls in flight (one timed, one that retries), two connection-level
 callbacks (the first unregisters itself), an explicit and an introspected proxy of the same object. -/
 def exHistory : List Ev :=
-  [.attemptFails, .attemptConnects, .authProgress, .authOk, .helloReply,
+  [.attemptFails .dnsLookup, .attemptConnects, .authProgress, .authOk, .helloReply,
    .notify .unregisterSelf, .notify .nothing, .call true .newCall, .call false .registerAnother,
    .proxyExplicit 7, .proxyIntrospect 7, .reply 3 true, .proxyNotify 0 .unregisterSelf, .proxyNotify 0 .nothing,
    .proxyNotify 1 .newCall]
@@ -181,6 +183,11 @@ def exHistory : List Ev :=
 example : (run .repaired (connect [exUnix, exEp]) exHistory).phase = .ready := by decide
 example : (run .repaired (connect [exUnix, exEp]) exHistory).pending.length = 2 := by decide
 example : concludes (run .repaired (connect [exEp]) [.attemptConnects]) .close = true := by decide
+/-- A DNS failure, then a plain exception, then a timeout: the walk reaches the fourth address. -/
+example : (run .repaired (connect [exEp, exUnix, exEp, exUnix])
+    [.attemptFails .dnsLookup, .attemptFails .other, .attemptFails .timeout, .attemptConnects]).current = some exUnix := by decide
+example : (run .repaired (connect [exEp, exUnix]) [.attemptFails .dnsLookup, .attemptFails .other]).fired = [.unreachable] := by
+  decide
 example : ((run .repaired (connect [exUnix, exEp]) (exHistory ++ [.close])).log.drop 4) =
     [.connCb 0, .connCb 1, .timerCancelled 1, .callErr 1 .lost, .callErr 2 .lost,
      .proxyCb 0 2, .proxyCb 0 3, .proxyCb 1 4] := by decide
